@@ -2,6 +2,7 @@
 ForwardRef, built on demand and registered under a name in this module so that string forms resolve here."""
 import dataclasses
 import typing as t
+from typing import Literal  # noqa: F401  (resolvable by name from this module)
 
 from vlib.fixtures.models import Point  # noqa: F401  (resolvable by name from this module)
 
@@ -59,6 +60,11 @@ class RecKids:  # the collection edge goes through the alias
 
 
 RecKidsRef = t.TypeAliasType("RecKidsRef", RecKids)
+
+@dataclasses.dataclass
+class LiteralText:  # a class whose *name* starts like the typing construct
+    body: str
+
 
 IntT = int
 ListInt = list[int]
